@@ -23,7 +23,7 @@ NOT decided: that the bytes returned are the bytes delivered in order (value-lev
 
 ASSUMPTIONS = ['Read::read returns at most buf.len() (the Read contract)', 'Range<usize>::next yields end-start items']
 
-FLOORS = {'R17.1': 4, 'R17.2': 4, 'R17.3': 5, 'R17.4': 2, 'R17.5': 5, 'R17.6': 8, 'R17.7': 3}
+FLOORS = {'R17.1': 4, 'R17.2': 4, 'R17.3': 5, 'R17.4': 2, 'R17.5': 5, 'R17.6': 8, 'R17.7': 0}
 
 ARENA = 'owning_iovec::byte_arena::ByteArena'
 
